@@ -17,7 +17,8 @@ def run(ctx):
     q = ctx.quick
     if ctx.replay_path:
         rp = json.load(open(ctx.replay_path))["replay"]
-        for r in ctx.replay("replay-iso", [rp]):
+        sub = "replay-sysiso" if rp["hist"] and "y" not in rp["hist"][0] else "replay-iso"
+        for r in ctx.replay(sub, [rp]):
             for f in r.get("fails", []):
                 ctx.fail(f["key"], f["msg"], replay=rp)
         return
@@ -33,7 +34,20 @@ def run(ctx):
     for b, r in zip(beh, results):
         for f in r.get("fails", []):
             ctx.fail(f["key"], f["msg"], replay=b)
+    # the per-instance SYSTEM state (SysIsolation.tla): random stream, clock, standard output, descriptor table of instances
+    # configured from one ModuleConfig lineage
+    sfiles = {"s.cfg": "SPECIFICATION Spec\nCONSTANTS\n  MaxSteps = %d\n  MaxInst = 2\n  Ops <- SysOps\nINVARIANTS Emit\n"
+                       "PROPERTIES NonInterference\nCHECK_DEADLOCK FALSE\n" % (4 if q else 5)}
+    sb = ctx.tlc("SysIsolation", "s.cfg", extra_files=sfiles, tag="design+gen:system-state", timeout=3000)["emitted"]
+    ctx.extra["system_state_histories"] = len(sb)
+    if q and len(sb) > 4000:
+        import random
+        sb = random.Random(ctx.seed).sample(sb, 4000)
+    sres = ctx.replay("replay-sysiso", sb, timeout=3400)
+    for b, r in zip(sb, sres):
+        for f in r.get("fails", []):
+            ctx.fail(f["key"], f["msg"], replay=b)
     for b in beh[:: max(1, len(beh) // 3)][:3]:
         ctx.sample({"steps": [(s["i"], s["op"], s["x"], s["y"]) for s in b["hist"]]})
     ctx.assumptions += ["instances come from one compiled module; variants: one runtime, capacity-from-max, two runtimes sharing a "
-                        "compilation cache; WASI descriptors and standard streams are covered by the WASI checks, not here"]
+                        "compilation cache", "random stream / clock readings are compared with those of a lone instance of a fresh configuration"]
